@@ -8,6 +8,7 @@ export GOFLAGS=-mod=mod GOPROXY=off
 pkgdir=.
 grep -q "^package expr" $out/demo${i}_test.go && pkgdir=expr
 tname=$(grep -o "func Test[A-Za-z0-9_]*" $out/demo${i}_test.go | head -1 | sed 's/func //')
+if [ -z "$SKIP_CONFIRM" ]; then
 cd $wt || exit 9
 git checkout -q -- . ; git clean -fdq
 # 1. clean tree: demo passes
@@ -26,6 +27,10 @@ if [ $clean_rc -ne 0 ] || [ $mut_rc -eq 0 ] || [ $fails -ne 0 ]; then echo "$id-
 # 3. store
 d=/verif/seeded/$id-$tag$i; mkdir -p $d
 cp $out/patch${i}.diff $d/patch.diff; cp $out/demo${i}_test.go $d/demo_test.go; cp $out/note${i}.txt $d/note.txt
+[ -n "$CONFIRM_ONLY" ] && exit 0
+else
+d=/verif/seeded/$id-$tag$i; [ -f $d/patch.diff ] || { echo "$id-$i: not stored (not confirmed)"; exit 7; }
+fi
 # 4. run the check against it in /repo
 cd /repo && git apply $d/patch.diff || { echo "$id-$i: patch does not apply to /repo"; exit 6; }
 cd /verif && timeout 3000 ./vcheck $id --tier $tier -timeout 1200s > $d/check.$tier.log 2>&1; rc=$?
@@ -38,7 +43,7 @@ pid,i,tier,rc,caught,viol=sys.argv[1:7]
 d='/verif/seeded/%s-%s'%(pid,i)
 note=open(d+'/note.txt').read()
 meta={"property":pid,"change":i,"written_by":"fresh sub-agent given only the property text","needs_to_manifest":note[:1200],
-      "confirmed":"applied in scratch worktree /tmp/seed/%s: existing suite passes except the always-failing TestLog; demo test fails with the change and passes without it (tools/seed_eval.sh)"%pid,
+      "confirmed":"applied in a scratch worktree of /repo (%s): existing suite passes except the always-failing TestLog; demo test fails with the change and passes without it (tools/seed_eval.sh)"%pid,
       "check":{"tier":tier,"exit":int(rc),"caught":caught,"first_violation":viol}}
 old={}
 if os.path.exists(d+'/meta.json'):
